@@ -195,6 +195,18 @@ def typed_nx(desc):
 def build(desc):
     """Return (reservoir, time, schedule, fluid, table)."""
     out = _build(desc)
+    if desc.get("alpha_hook") and desc.get("cls") == "single":
+        # the public diffusivity hook REPLACED ON THE OBJECT (res.alpha_scaled = ..., mock.patch.object): the steps
+        # use what the object's hook returns - here the table's diffusivity times a position-dependent factor
+        res_ = out[0]
+        w_ = 1.0 + float(desc["alpha_hook"]) * np.linspace(0.0, 1.0, int(res_.nx))
+        default_ = res_.alpha_scaled
+
+        def hook(pseudopressure, default_=default_, w_=w_):
+            return np.asarray(default_(pseudopressure), dtype=float) * w_
+
+        res_.alpha_scaled = hook
+        res_._vf_hook_weights = w_
     if desc.get("grid", {}).get("container"):
         # the caller's history lives in a DataFrame: stamps and frac-face pressures are handed over as
         # pandas Series (default labels); `simulate` / `simulate_concurrently` below do the wrapping, the
@@ -503,6 +515,9 @@ def step_residuals(res, cls, time, pp, m_i, m_f, tol=1e-11, check_row0=False, al
         al = np.asarray(props["alpha"], dtype=float)
         o = np.argsort(ms, kind="stable")
         a = np.interp(b0, ms[o], al[o]) / float(np.interp(m_i, ms[o], al[o]))
+        w_hook = getattr(res, "_vf_hook_weights", None)
+        if w_hook is not None:
+            a = a * np.asarray(w_hook, dtype=float)[None, :]  # the user's replacement of the public diffusivity hook
         out["alpha_lookup_vs_library"] = float(np.max(np.abs(a[0] - np.asarray(res.alpha_scaled(b0[0]), dtype=float)) / a[0]))
     xinf = np.max(np.abs(new), axis=1)  # per step
     lap = np.empty_like(new)
